@@ -458,6 +458,19 @@ def make_shims(world):
         transpose=np_transpose,
         moveaxis=A.moveaxis,
         trace=A.trace,
+        diagonal=A.diagonal,
+        rot90=A.rot90,
+        vstack=A.vstack,
+        hstack=A.hstack,
+        dstack=A.dstack,
+        append=A.append,
+        full_like=A.full_like,
+        flipud=lambda m: A.flip(m, 0),
+        fliplr=lambda m: A.flip(m, 1),
+        atleast_1d=lambda a: A.atleast_nd(a, 1),
+        atleast_2d=lambda a: A.atleast_nd(a, 2),
+        atleast_3d=lambda a: A.atleast_nd(a, 3),
+        inner=lambda a, b: A.tensordot(a, b, axes=(-1, -1)) if A.as_arr(a).ndim and A.as_arr(b).ndim else A.as_arr(a) * A.as_arr(b),
         swapaxes=A.swapaxes,
         expand_dims=A.expand_dims,
         squeeze=A.squeeze,
@@ -526,6 +539,9 @@ def make_shims(world):
         not_equal=ew2("ne"),
         less=ew2("lt"),
         greater=ew2("gt"),
+        less_equal=ew2("le"),
+        greater_equal=ew2("ge"),
+        floor_divide=ew2("floordiv"),
         logical_and=ew2("and"),
         logical_or=ew2("or"),
         allclose=allclose,
@@ -629,11 +645,36 @@ def make_shims(world):
             return a
         raise Unsupported("random.permutation of an array")
 
+    def rchoice(key, a, shape=(), replace=True, p=None, axis=0, **k):
+        """jax.random.choice: without replacement a prefix of a permutation; with replacement (the default) opaque
+        draws that may coincide -- recorded so that rules relying on distinct indices can tell."""
+        if isinstance(a, Arr) and a.ndim == 1 and a.is_concrete() and list(a.elems) == list(range(a.shape[0])):
+            a = a.shape[0]
+        if isinstance(a, Arr) and a.ndim == 0 and a.is_concrete():
+            a = A._as_int(a)
+        if not isinstance(a, int) or p is not None:
+            raise Unsupported("random.choice of an array / with probabilities")
+        shape = (A._as_int(shape),) if not isinstance(shape, (tuple, list)) else tuple(A._as_int(x) for x in shape)
+        n_out = 1
+        for x in shape:
+            n_out *= x
+        if not replace:
+            if n_out > a:
+                raise AbstractError("random.choice: cannot take %d samples without replacement from %d" % (n_out, a))
+            full = rpermutation(key, a)
+            return A.reshape(full[:n_out], shape)
+        W.param_counter += 1
+        name = "choice%d" % W.param_counter
+        out = Arr(shape, [Poly.leaf(name, (i,)) for i in range(n_out)], "int")
+        out.tag = name
+        W.trace.append(("choice_with_replacement", name, a, A._SITE[0]))
+        return out
+
     def rkey(seed=0):
         W.key_counter += 1
         return Key(W.key_counter)
 
-    random = NS("jax.random", split=rsplit, uniform=runiform, normal=rnormal, permutation=rpermutation, PRNGKey=rkey, key=rkey)
+    random = NS("jax.random", split=rsplit, uniform=runiform, normal=rnormal, permutation=rpermutation, choice=rchoice, PRNGKey=rkey, key=rkey)
 
     # ------------------------------------------------------------------ jax.nn
     def act(name):
